@@ -11749,6 +11749,7 @@ Tree_init(Tree *self, PyObject *args, PyObject *kwds)
     tsk_id_t *tracked_samples = NULL;
     unsigned int options = 0;
     tsk_size_t j, num_tracked_samples, num_nodes;
+    long value;
     PyObject *item;
 
     self->tree = NULL;
@@ -11782,8 +11783,9 @@ Tree_init(Tree *self, PyObject *args, PyObject *kwds)
             PyErr_SetString(PyExc_TypeError, "sample must be a number");
             goto out;
         }
-        tracked_samples[j] = (tsk_id_t) PyLong_AsLong(item);
-        if (tracked_samples[j] < 0 || tracked_samples[j] >= (tsk_id_t) num_nodes) {
+        value = PyLong_AsLong(item);
+        tracked_samples[j] = (tsk_id_t) value;
+        if (value < 0 || value >= (long) num_nodes) {
             PyErr_SetString(PyExc_ValueError, "samples must be valid nodes");
             goto out;
         }
@@ -12086,7 +12088,7 @@ Tree_get_node_argument(Tree *self, PyObject *args, int *node)
     if (Tree_check_state(self) != 0) {
         goto out;
     }
-    if (!PyArg_ParseTuple(args, "I", node)) {
+    if (!PyArg_ParseTuple(args, "i", node)) {
         goto out;
     }
     if (Tree_check_bounds(self, *node)) {
@@ -12120,7 +12122,7 @@ Tree_is_descendant(Tree *self, PyObject *args)
     if (Tree_check_state(self) != 0) {
         goto out;
     }
-    if (!PyArg_ParseTuple(args, "II", &u, &v)) {
+    if (!PyArg_ParseTuple(args, "ii", &u, &v)) {
         goto out;
     }
     if (Tree_check_bounds(self, (tsk_id_t) u)) {
@@ -12384,7 +12386,7 @@ Tree_get_next_sample(Tree *self, PyObject *args)
     if (Tree_check_state(self) != 0) {
         goto out;
     }
-    if (!PyArg_ParseTuple(args, "I", &in_index)) {
+    if (!PyArg_ParseTuple(args, "i", &in_index)) {
         goto out;
     }
     num_samples = (int) tsk_treeseq_get_num_samples(self->tree->tree_sequence);
